@@ -66,12 +66,17 @@ def gen_class(rng, pkg, name, family):
             methods.append(gen_method(rng, i, {"filler": 0, "nparams": 0}))
         for i in range(rng.randint(0, 3)):
             methods.append(gen_method(rng, i, {"name": rng.choice(["get", "set"]) + "X%d" % i, "nparams": 0}))
+        if rng.random() < 0.4:      # the bare accessor names of Supplier / AtomicReference / ThreadLocal style classes
+            methods.append(gen_method(rng, 90, {"name": "get", "nparams": 0}))
+            methods.append(gen_method(rng, 91, {"name": "set", "nparams": 1}))
         rng.shuffle(methods)
     elif family == "data_class":
         for i in range(rng.randint(0, 3)):
             methods.append(gen_method(rng, i, {"name": rng.choice(["get", "set", "getter", "settle"]) + "V%d" % i, "nparams": rng.randint(0, 1)}))
         if rng.random() < 0.3:
             methods.append(gen_method(rng, 9, {"name": rng.choice(["isOk", "gett", "target"]), "nparams": 0}))
+        if rng.random() < 0.3:
+            methods = [gen_method(rng, 0, {"name": "get", "nparams": 0})] + ([gen_method(rng, 1, {"name": "set", "nparams": 1})] if rng.random() < 0.6 else [])
         if rng.random() < 0.3: kind = "interface"
     elif family == "switches":
         for i in range(rng.randint(1, 2)):
